@@ -42,7 +42,7 @@ fn real_specs(tier: Tier, property: &str) -> Vec<Spec> {
             v
         }
         Tier::Thorough => {
-            let mut v = vec![g(2, 2, 3, 2), g(2, 0, 3, 2), g(2, 1, 3, 2), Spec::Files { k: 0, cap: 0 }, Spec::Names { extra: 1 }, Spec::Scaled { deep: false }, g(1, 2, 3, 3), g(2, 2, 2, 3), gsym(2, 3, 3, 2)];
+            let mut v = vec![g(2, 2, 3, 2), g(2, 0, 3, 2), g(2, 1, 3, 2), Spec::Files { k: 0, cap: 0 }, Spec::Names { extra: 1 }, Spec::Scaled { deep: false }, Spec::GP(crate::scopes::Scope { n: 1, t: 2, p: 2, k: 2, symmetry: false, only_cyclic: false }), g(1, 2, 3, 3), g(2, 2, 2, 3), gsym(2, 3, 3, 2)];
             v.extend(all_seed_nbh(1, 1, 600));
             v
         }
